@@ -24,6 +24,7 @@ Anything else raises Unsupported *for that function*: its definition and obligat
 recorded (`gen_unavailable`), the property then rests on correspondence alone for that function.
 """
 import ast
+import copy
 import os
 from fractions import Fraction
 from pathlib import Path
@@ -503,9 +504,31 @@ def translate():
         for nm, fn, params, model in (('forward', mf['forward'], '(f : R -> R) (a x : R)', 'a * f x'),
                                       ('prox', mp['prox'], '(prox : R -> R -> R) (a sigma x : R)', 'sc_prox a prox sigma x'),
                                       ('prox_convex_conj', mp['prox_convex_conj'], '(pcc : R -> R -> R) (a sigma x : R)', 'sc_pcc a pcc sigma x')):
+            zero_branch = None
+            if nm == 'prox_convex_conj':
+                # since the repair of the scale-0 case: `if torch.all(torch.as_tensor(self.scale) == 0): return (...)` in front of the
+                # general formula; both returns are translated, the test becomes a = 0
+                body = [st for st in fn.body if not (isinstance(st, ast.Expr) and isinstance(st.value, ast.Constant))]
+                guards = [st for st in body if isinstance(st, ast.If) and ast.unparse(st.test) == 'torch.all(torch.as_tensor(self.scale) == 0)']
+                if len(guards) == 1 and len(guards[0].body) == 1 and isinstance(guards[0].body[0], ast.Return) and not guards[0].orelse:
+                    f0 = copy.deepcopy(fn)
+                    f0.body = [st for st in body if st is not guards[0] and not isinstance(st, ast.Return)] + [guards[0].body[0]]
+                    k0_, v0_ = run(f0, False, False, env)
+                    if k0_ != 'value' or not isinstance(v0_, Real):
+                        raise Unsupported('prox_convex_conj zero-scale branch')
+                    zero_branch = v0_.s
+                    fn = copy.deepcopy(fn)
+                    fn.body = [st for st in body if st is not guards[0]]
             kind, v = run(fn, False, False, env)
             if kind != 'value' or not isinstance(v, Real):
                 raise Unsupported(f'{nm} result')
+            if zero_branch is not None:
+                t += deff(f'gen_Scaled_{nm}', params, 'R', f'if Req_EM_T a 0 then {zero_branch} else {v.s}')
+                bind = 'pcc a sigma x'
+                t += lemma(f'gen_Scaled_{nm}_ok', bind, f'gen_Scaled_{nm} {bind} = {model}',
+                           f'intros; unfold gen_Scaled_{nm}; destruct (Req_EM_T a 0) as [->|Hne]; [unfold sc_pcc; ring|unf; rnorm; deep]')
+                n += 1
+                continue
             t += deff(f'gen_Scaled_{nm}', params, 'R', v.s)
             bind = params.replace('(f : R -> R)', 'f').replace('(prox : R -> R -> R)', 'prox').replace('(pcc : R -> R -> R)', 'pcc').replace('(a x : R)', 'a x').replace('(a sigma x : R)', 'a sigma x')
             call = bind
